@@ -25,7 +25,8 @@ TwinRestart == /\ st = "drift" /\ ~bfresh
                /\ brate' = "0.0" /\ bstd' = "0.0" /\ brmin' = INF /\ bsmin' = INF
                /\ bfresh' = TRUE /\ off' = total
                /\ UNCHANGED <<ddmvars, hs>>
-Next == Update \/ TwinRestart
+UReset == /\ st # "drift" /\ total > 0 /\ Reset /\ B!Reset /\ hs' = <<>> /\ UNCHANGED <<bfresh, off>>
+Next == Update \/ TwinRestart \/ UReset
 Spec == Init /\ [][Next]_vars
 Bound == TLCGet("level") <= Depth
 
